@@ -56,6 +56,12 @@ Theorem C19_uci_accepts : forall s, uci_wellformed s ->
 Proof. exact uci_accepts. Qed.
 Print Assumptions C19_uci_accepts.
 
+(* the move parser never panics and accepts only texts of exactly 4 or 5 characters *)
+Theorem C19_uci_total : forall s, uci_move_parse s <> Panic /\
+  forall t, uci_move_parse s = Ok t -> (length s = 4 \/ length s = 5)%nat.
+Proof. intros s. split; [exact (uci_no_panic s)|exact (uci_ok_length s)]. Qed.
+Print Assumptions C19_uci_total.
+
 (* totality of the text layer: the fuelled JSON parser never runs out of fuel *)
 Theorem C19_parse_total : forall x, parse_json_res x <> PFuel.
 Proof. exact parse_json_fuel. Qed.
